@@ -9,13 +9,13 @@ import threading
 import warnings
 
 LEVEL = "exploration"
-RULE = ("Greenlets: every chain main <- G0 <- G1 <- G2 (length 1..3, thorough 1..4) with every call depth 1..3 inside each greenlet; ask points: "
+RULE = ("Greenlets: every chain main <- G0 <- G1 <- G2 (length 1..3, thorough 1..5) with every call depth 1..3 inside each greenlet; ask points: "
         "inside the innermost greenlet while all ancestors are suspended in switch() into a descendant; inside each parent after "
         "its child switched back; in main after everything parked; at each ask point every greenlet (main, each Gi, an unstarted "
         "one, a dead one) is extracted: suspended -> exactly the f_back walk from gr_frame; current -> exactly its own portion of "
         "the running stack (f_back walk from the asker to the greenlet boundary; also when the asker's parent is a greenlet that has finished or was never started, or both nearest ancestors have finished); unstarted/dead -> no frames; running in another "
         "thread (a non-main greenlet there, or that thread's MAIN greenlet while the thread runs in it, asked from this thread's main or a non-main greenlet; that thread's suspended and unstarted greenlets are extracted too) -> an error and no frames. This covers askers {outside, self, child, grandchild, parent}. Greenback: async/sync "
-        "alternation depth 0..3 (thorough 0..5) under trio (await_ given coroutines, and given non-coroutine awaitables) with the extraction taken from outside (callback while the task is blocked) and from "
+        "alternation depth 0..3 (thorough 0..7) under trio (await_ given coroutines, and given non-coroutine awaitables) with the extraction taken from outside (callback while the task is blocked) and from "
         "inside (innermost sync or async function, also from inside 1-2 plain greenlets started below the task's greenback greenlet): the user functions must appear exactly once each, in call order, and no "
         "visible frame may belong to await_, _greenback_shim or trampoline. The same towers under asyncio, where at one chosen level (each level in turn, or none) the task is cancelled while waiting and swallows the cancellation before going deeper, so that this level's bridge last resumed its coroutine by throwing an exception into it: besides the user functions only greenback's coroutine wrapper may be visible. evaluations = extractions checked; "
         "distinct_nontrivial = distinct (chain, depths, ask point, target) / (alternation depth, leaf kind, vantage).")
@@ -28,7 +28,7 @@ def legs(tier):
 
 
 def bounds(tier):
-    return {"chain": 3 if tier == "quick" else 4, "call_depth": 2 if tier == "quick" else 3, "alternations": 3 if tier == "quick" else 5}
+    return {"chain": 3 if tier == "quick" else 5, "call_depth": 2 if tier == "quick" else 3, "alternations": 3 if tier == "quick" else 7}
 
 
 def walk(frame):
